@@ -227,7 +227,7 @@ def _with_false(text):
             d += 1
         elif t.s in rsx.CLOSE:
             d -= 1
-        elif t.s == "ensures" and d == 0:
+        elif t.s == "ensures" and d == 0 and (i == 0 or toks[i - 1].s != "."):
             return rsx.render(toks[:i + 1]) + " false, " + rsx.render(toks[i + 1:])
     t = text.rstrip()
     if not t.endswith(","):
